@@ -71,6 +71,12 @@ def make_cfg(seed, i):
         up = cfg["user_params"]
         if r() < 0.3:
             cfg["args"]["npt"] = int(min(2 * n + 1, n + 1 + rng.integers(0, n)))
+        if i % 60 == 1:
+            # 100 or more interpolation points: the third printing threshold (the list of Jacobian evaluation points is elided)
+            n = 52
+            cfg["prob"].update(n=n, m=int(gen.pick(rng, [60, 101])))
+            cfg["x0"] = (rng.normal(size=n)).tolist()
+            cfg["args"] = dict(npt=int(gen.pick(rng, [100, 2 * n + 1])), maxfun=2 * n + 6, rhoend=1e-4)
     if fam == 2:
         cfg["faults"] = {str(int(rng.integers(1, 25))): gen.pick(rng, ["nan", "nan", "inf", "-inf", "1e200"])}
         if r() < 0.3:
